@@ -20,7 +20,8 @@ type flowSpec struct {
 	recv  types.Object
 	alias map[types.Object]string
 	// pure callees (by qualified name) are transparent: no effect recorded
-	quiet map[string]bool
+	quiet   map[string]bool
+	noNamed bool // do not abbreviate configuration predicates (when analysing them)
 }
 
 func (f *flowSpec) Init(x *gea.Exec, st *gea.State) *gea.State {
@@ -31,6 +32,25 @@ func (f *flowSpec) Init(x *gea.Exec, st *gea.State) *gea.State {
 		x.SetAlias(o, a)
 	}
 	return st
+}
+
+// namedAtoms: pure configuration predicates evaluated as one stable atom each
+var namedAtoms = map[string]string{
+	"Config.EncryptionEnabled": "encOn",
+	"Config.IPMustBeChecked":   "ipCheck",
+	"Memberlist.hasShutdown":   "shutdown",
+	"Memberlist.hasLeft":       "left",
+}
+
+func (f *flowSpec) Cond(x *gea.Exec, st *gea.State, e ast.Expr, env *gea.Env) ([]gea.OutB, bool) {
+	if call, ok := e.(*ast.CallExpr); ok {
+		if fn := x.P.Callee(call); fn != nil && fn.Pkg() == x.P.Types {
+			if a, ok := namedAtoms[core.QualName(fn)]; ok && !f.noNamed {
+				return x.Atom(st, a), true
+			}
+		}
+	}
+	return nil, false
 }
 
 func (f *flowSpec) Assign(x *gea.Exec, st *gea.State, lhs, rhs ast.Expr, val gea.Term) *gea.State {
@@ -106,7 +126,7 @@ func (f *flowSpec) Call(x *gea.Exec, st *gea.State, call *ast.CallExpr, env *gea
 	}
 	if callee.Pkg() == p.Types {
 		qn := core.QualName(callee)
-		if f.quiet[qn] {
+		if _, named := namedAtoms[qn]; (named && !f.noNamed) || f.quiet[qn] {
 			return one(st)
 		}
 		s := x.Effect(st, "CALL:"+qn, call.Pos(), args)
@@ -115,6 +135,9 @@ func (f *flowSpec) Call(x *gea.Exec, st *gea.State, call *ast.CallExpr, env *gea
 	switch {
 	case strings.HasPrefix(full, "github.com/hashicorp/go-metrics"), strings.HasPrefix(full, "log."), strings.HasPrefix(full, "fmt."):
 		return one(st)
+	case recv == "bytes.Buffer":
+		s := x.Effect(st, "BUF:"+callee.Name(), call.Pos(), args)
+		return one(s)
 	case recv == "time.Timer":
 		s := x.Effect(st, "TIMERCALL:"+callee.Name(), call.Pos(), args)
 		return one(s)
